@@ -527,7 +527,7 @@ theorem xirr_strictAnti {K : Type*} [Field K] [LinearOrder K] [IsStrictOrderedRi
 /-- **the XIRR certificate**: opposite signs of the date-weighted sum at `a < b` enclose every root. -/
 theorem xirr_certificate {K : Type*} [Field K] [LinearOrder K] [IsStrictOrderedRing K]
     (pw : K → K → K) (hpw : IsPow pw) (v0 : K) (vs : List K) (d0 : K) (ds : List K)
-    (hdom : XOutlayThenReturns v0 vs d0 ds) (a b ρ : K) (ha : -1 < a) (hb : -1 < b) (hρ : -1 < ρ)
+    (hdom : XOutlayThenReturns v0 vs d0 ds) (a b ρ : K) (hb : -1 < b) (hρ : -1 < ρ)
     (hlo : 0 < xnpvFromK (pw (1 + a)) d0 (v0 :: vs) (d0 :: ds))
     (hhi : xnpvFromK (pw (1 + b)) d0 (v0 :: vs) (d0 :: ds) < 0)
     (hroot : xnpvFromK (pw (1 + ρ)) d0 (v0 :: vs) (d0 :: ds) = 0) : a < ρ ∧ ρ < b := by
